@@ -150,7 +150,9 @@ func cmdCheck(args []string) {
 	tier := fs.String("tier", "quick", "quick|thorough")
 	updateExpected := fs.Bool("update-expected", false, "rewrite expected_obligations.json for this property")
 	verbose := fs.Bool("v", false, "verbose")
+	noEv := fs.Bool("no-evidence", false, "do not write evidence or replay files under the verif directory (selftest runs)")
 	fs.Parse(args)
+	noEvidence = *noEv
 	if fs.NArg() < 1 {
 		fmt.Fprintln(os.Stderr, "usage: gvc check [flags] <property>")
 		os.Exit(2)
@@ -167,6 +169,8 @@ func cmdCheck(args []string) {
 	code := runCheck(*repo, *verif, prop, *tier, seed, *updateExpected, *verbose, t0)
 	os.Exit(code)
 }
+
+var noEvidence bool
 
 func errorExit(prop string, format string, a ...any) int {
 	fmt.Printf("ERROR property=%s %s\n", prop, fmt.Sprintf(format, a...))
@@ -197,7 +201,12 @@ func runCheck(repo, verif, prop, tier string, seed int, updateExpected, verbose 
 		for _, l := range strings.Split(string(b), "\n") {
 			l = strings.TrimSpace(l)
 			if l != "" && !strings.HasPrefix(l, "#") {
-				stretch[strings.Fields(l)[0]] = true
+				fs := strings.Fields(l)
+				// "<name> quick": stretch in the quick tier only (claimed in thorough)
+				if len(fs) > 1 && fs[1] == "quick" && tier != "quick" {
+					continue
+				}
+				stretch[fs[0]] = true
 			}
 		}
 	}
@@ -329,7 +338,11 @@ func runCheck(repo, verif, prop, tier string, seed int, updateExpected, verbose 
 	}
 	// report
 	replayDir := filepath.Join(verif, "replay", prop)
-	os.RemoveAll(replayDir)
+	if noEvidence {
+		replayDir = filepath.Join(tmp, "replay")
+	} else {
+		os.RemoveAll(replayDir)
+	}
 	exit := 0
 	for i := range viols {
 		v := &viols[i]
@@ -408,9 +421,11 @@ func runCheck(repo, verif, prop, tier string, seed int, updateExpected, verbose 
 		"contract_files":           e.specFiles,
 	}
 	ev := Evidence{PropertyID: prop, Tier: tier, Seed: seed, Level: "proof", Coverage: cov, Assumptions: assumptions, WallS: round3(time.Since(t0).Seconds()), Violations: len(viols) + len(missing)}
-	os.MkdirAll(filepath.Join(verif, "evidence"), 0o755)
-	b, _ := json.MarshalIndent(ev, "", " ")
-	os.WriteFile(filepath.Join(verif, "evidence", prop+".json"), append(b, '\n'), 0o644)
+	if !noEvidence {
+		os.MkdirAll(filepath.Join(verif, "evidence"), 0o755)
+		b, _ := json.MarshalIndent(ev, "", " ")
+		os.WriteFile(filepath.Join(verif, "evidence", prop+".json"), append(b, '\n'), 0o644)
+	}
 	if verbose || exit != 0 {
 		for _, v := range viols {
 			fmt.Printf("  failed %s [%s] at %s: %s\n", v.r.Name, v.r.Status, v.r.Pos, truncate(v.r.Text, 100))
